@@ -41,6 +41,17 @@ B = [
     ("aztec-no-punct-latch", "aztec/highlevel.go", "if !charInCurrentTable || mode == s.mode || mode == mode_digit {", "if (mode != mode_punct || s.mode == mode_punct) && (!charInCurrentTable || mode == s.mode || mode == mode_digit) {",
      "the search never latches to PUNCT (shifts and binary shift are used instead): another valid high-level encoding"),
     ("qr-penalty-bound-noop", "qr/encoder.go", "\tlowestPenalty := ^uint(0)\n", "\tlowestPenalty := ^uint(0) / 2\n", "pure no-op on the penalty bound (scores never get near it)"),
+    ("1d-correct-rgba64at", "utils/base1dcode.go", "func (c *base1DCodeIntCS) CheckSum() int {",
+     "// RGBA64At implements image.RGBA64Image.\nfunc (c *base1DCode) RGBA64At(x, y int) color.RGBA64 {\n\tr, g, b, a := c.At(x, y).RGBA()\n\treturn color.RGBA64{R: uint16(r), G: uint16(g), B: uint16(b), A: uint16(a)}\n}\n\nfunc (c *base1DCodeIntCS) CheckSum() int {",
+     "a correct RGBA64At fast path for 1D codes (image/draw will use it)"),
+    ("aztec-correct-opaque", "aztec/azteccode.go", "func (c *aztecCode) set(x, y int) {",
+     "// Opaque reports whether both colours are opaque.\nfunc (c *aztecCode) Opaque() bool {\n\t_, _, _, fa := c.color.Foreground.RGBA()\n\t_, _, _, ba := c.color.Background.RGBA()\n\treturn fa == 0xffff && ba == 0xffff\n}\n\nfunc (c *aztecCode) set(x, y int) {",
+     "a correct Opaque() for Aztec symbols"),
+    ("bitlist-iterate-buffered", "utils/bitlist.go", "\tres := make(chan byte)\n\n\tgo func() {\n\t\tc := bl.count",
+     "\tres := make(chan byte, (bl.count+7)/8)\n\n\tfunc() {\n\t\tc := bl.count",
+     "IterateBytes fills a buffered channel synchronously instead of starting a goroutine (same bytes, closed channel)"),
+    ("rs-encode-copy-result", "utils/reedsolomon.go", "\tcopy(result[numZero:], remainder.Coefficients)\n\treturn result", "\tcopy(result[numZero:], remainder.Coefficients)\n\tout := make([]int, len(result))\n\tcopy(out, result)\n\treturn out",
+     "Encode returns a fresh copy (pure refactoring)"),
     ("codabar-precompiled-regexp", "codabar/encoder.go", "checkValid, _ := regexp.Compile(`[ABCD][0123456789\\-\\$\\:/\\.\\+]*[ABCD]$`)", "checkValid := regexp.MustCompile(`^[ABCD][0123456789\\-\\$\\:/\\.\\+]*[ABCD]$`)",
      "anchored pattern (same accepted set)"),
 ]
